@@ -10,6 +10,10 @@ CRYPTO_TRUST = [
 PROP = Property(
     "C02", ["HsVerif.Props.C02"], [CertFam("c02")],
     facts=[
+        # 28593c9: a failed pairing check is repeated in two equivalent arrangements (library Miller-loop defect)
+        {"func": "security/crypto/bls12.go:bls12Base.coreVerify", "order": ["subgroupCheck", "HashToCurve", "pairingCheck"]},
+        {"func": "security/crypto/bls12.go:bls12Base.coreAggregateVerify", "order": ["subgroupCheck", "HashToCurve", "pairingCheck"]},
+        {"func": "security/crypto/bls12.go:pairingCheck", "order": ["NewEngine", "AddPairInv", "AddPair", "Result", "AddPairInv", "Result", "MulScalarBig", "AddPairInv", "MulScalarBig", "AddPair", "Result"]},
         {"func": "security/cert/auth.go:Authority.VerifyQuorumCert", "order": ["QuorumSize", "Get", "Verify"]},
         {"func": "security/cert/auth.go:Authority.VerifyTimeoutCert", "order": ["QuorumSize", "Verify"]},
         {"func": "security/cert/auth.go:Authority.VerifyAggregateQC", "order": ["QuorumSize", "BatchVerify", "findHighestValidQC"]},
